@@ -67,6 +67,7 @@ struct Outcome {
     decided_order_pairs: u64,
     undecided_order_pairs: u64,
     decided_cancels: u64,
+    decided_shared_id_cancels: u64,
     undecided_cancels: u64,
     delivered: u64,
     /// unit spellings of the delays that were delivered not early (one entry per delivered event)
@@ -104,7 +105,9 @@ fn scenario(rng: &mut Rng, thorough: bool, dm: &str) -> Outcome {
         };
         let use_idlocation = cancel == Some(CancelHow::Immediately) && rng.chance(1, 3);
         // two pending sends may carry the same id: both are delivered (and one <cancel> hits both)
-        let share = i > 0 && cancel.is_none() && sends[i - 1].cancel.is_none() && !sends[i - 1].use_idlocation && rng.chance(1, 5);
+        // ... or one <cancel> with that id prevents the delivery of all of them: the later send of the pair carries it
+        let cancels_both = matches!(cancel, Some(CancelHow::Immediately) | Some(CancelHow::Later(_))) && !use_idlocation;
+        let share = i > 0 && (cancel.is_none() || cancels_both) && sends[i - 1].cancel.is_none() && !sends[i - 1].use_idlocation && rng.chance(if cancels_both { 2 } else { 1 }, 5);
         let id = if share { sends[i - 1].id.clone() } else { format!("u{}", i) };
         sends.push(SendSpec {
             id,
@@ -156,9 +159,9 @@ fn scenario(rng: &mut Rng, thorough: bool, dm: &str) -> Outcome {
             if s.use_idlocation {
                 body.push_str(&format!("<script>mark('cb', '{u}')</script><cancel sendidexpr=\"loc\"/><script>mark('ca', '{u}')</script>\n", u = s.uid));
             } else if i % 2 == 0 {
-                body.push_str(&format!("<script>mark('cb', '{u}')</script><cancel sendid=\"{u}\"/><script>mark('ca', '{u}')</script>\n", u = s.uid));
+                body.push_str(&format!("<script>mark('cb', '{u}')</script><cancel sendid=\"{id}\"/><script>mark('ca', '{u}')</script>\n", u = s.uid, id = s.id));
             } else {
-                body.push_str(&format!("<script>mark('cb', '{u}')</script><cancel sendidexpr=\"'{u}'\"/><script>mark('ca', '{u}')</script>\n", u = s.uid));
+                body.push_str(&format!("<script>mark('cb', '{u}')</script><cancel sendidexpr=\"'{id}'\"/><script>mark('ca', '{u}')</script>\n", u = s.uid, id = s.id));
             }
         }
     }
@@ -174,8 +177,9 @@ fn scenario(rng: &mut Rng, thorough: bool, dm: &str) -> Outcome {
     for s in &sends {
         if let Some(CancelHow::Later(_)) = s.cancel {
             later.push_str(&format!(
-                "<transition event=\"cancel.{u}\"><script>mark('cb', '{u}')</script><cancel sendid=\"{u}\"/><script>mark('ca', '{u}')</script></transition>\n",
-                u = s.uid
+                "<transition event=\"cancel.{u}\"><script>mark('cb', '{u}')</script><cancel sendid=\"{id}\"/><script>mark('ca', '{u}')</script></transition>\n",
+                u = s.uid,
+                id = s.id
             ));
         }
     }
@@ -202,6 +206,7 @@ fn scenario(rng: &mut Rng, thorough: bool, dm: &str) -> Outcome {
         decided_order_pairs: 0,
         undecided_order_pairs: 0,
         decided_cancels: 0,
+        decided_shared_id_cancels: 0,
         undecided_cancels: 0,
         delivered: 0,
         units_delivered: vec![],
@@ -310,11 +315,17 @@ fn scenario(rng: &mut Rng, thorough: bool, dm: &str) -> Outcome {
         if arrivals.len() > 1 {
             out.violations.push(("delivered-twice".into(), format!("delayed event {} (delay {}) was delivered {} times", s.uid, s.spelling, arrivals.len())));
         }
-        let cb = mark_time(&log, "cb", &s.uid);
-        let ca = mark_time(&log, "ca", &s.uid);
+        // the <cancel> that applies to this send: its own, or the one a later send with the same id carries
+        // (<cancel sendid> names an id, and every pending send with that id is "that send")
+        let own_cancel = |y: &SendSpec| y.cancel.is_some() && y.cancel != Some(CancelHow::OtherSession);
+        let cancel_owner: Option<&SendSpec> = if own_cancel(s) { Some(s) } else { sends.iter().skip(i + 1).find(|y| y.id == s.id && own_cancel(y)) };
+        let by_shared_id = cancel_owner.map(|o| o.uid != s.uid).unwrap_or(false);
+        let cuid = cancel_owner.map(|o| o.uid.clone()).unwrap_or_else(|| s.uid.clone());
+        let _cb = mark_time(&log, "cb", &cuid);
+        let ca = mark_time(&log, "ca", &cuid);
         let earliest_due = sb + Duration::from_millis(s.delay_ms);
         let latest_due = sa + Duration::from_millis(s.delay_ms);
-        let effective_cancel = s.cancel.is_some() && s.cancel != Some(CancelHow::OtherSession);
+        let effective_cancel = cancel_owner.is_some();
         if let Some((t, val, _)) = arrivals.first() {
             out.delivered += 1;
             out.units_delivered.push(s.spelling.trim_start_matches(|c: char| c.is_ascii_digit() || c == '.').to_string());
@@ -363,7 +374,7 @@ fn scenario(rng: &mut Rng, thorough: bool, dm: &str) -> Outcome {
                     if ca < earliest_due {
                         out.decided_cancels += 1;
                         out.violations.push((
-                            "cancelled-event-delivered".into(),
+                            if by_shared_id { "cancelled-event-delivered:id-shared-with-another-pending-send" } else { "cancelled-event-delivered" }.into(),
                             format!(
                                 "event {} (delay {} ms) was delivered although <cancel> had completed {:.2} ms before its earliest due time",
                                 s.uid,
@@ -393,7 +404,7 @@ fn scenario(rng: &mut Rng, thorough: bool, dm: &str) -> Outcome {
                 ));
             } else {
                 // cancelled: it had to be delivered only if a later-due event was processed before the cancel started
-                let cb_seq = mark_seq(&log, "cb", &s.uid);
+                let cb_seq = mark_seq(&log, "cb", &cuid);
                 let overtaken = sends.iter().find(|y| {
                     y.uid != s.uid
                         && match (mark_time(&log, "sb", &y.uid), rv.get(&y.uid).and_then(|v| v.first()), cb_seq) {
@@ -408,6 +419,9 @@ fn scenario(rng: &mut Rng, thorough: bool, dm: &str) -> Outcome {
                     ));
                 } else if ca.map(|c| c < earliest_due).unwrap_or(false) {
                     out.decided_cancels += 1;
+                    if by_shared_id {
+                        out.decided_shared_id_cancels += 1;
+                    }
                 } else {
                     out.undecided_cancels += 1;
                 }
@@ -536,6 +550,7 @@ pub fn run(args: &Args, rep: &mut Report) {
         rep.count("decided_due_order_pairs", o.decided_order_pairs);
         rep.count("undecided_due_order_pairs", o.undecided_order_pairs);
         rep.count("decided_cancels", o.decided_cancels);
+        rep.count("decided_cancels_through_a_shared_id", o.decided_shared_id_cancels);
         rep.count("undecided_cancels", o.undecided_cancels);
         if let Some(i) = &o.inconclusive {
             rep.inconclusive(i);
